@@ -88,9 +88,22 @@ def gen_objectives(rng, seq, allow_custom=True):
             os_.append(("AvoidChanges", kw(boost=boost, location=rng.choice([None, rloc(rng, n, strands=(0,))]))))
         elif r < 0.75:
             os_.append(("EnforceChanges", kw(boost=boost, location=rng.choice([None, rloc(rng, n, strands=(0,))]))))
-        elif r < 0.88:
+        elif r < 0.82:
             loc = rloc(rng, n, strands=(1, -1), mult=3, minlen=3)
             os_.append(("MaximizeCAI", kw(species=rng.choice(["e_coli", "s_cerevisiae"]), location=loc, boost=boost)))
+        elif r < 0.9:
+            # classes usually used as constraints, here as weighted objectives
+            k = rng.random()
+            if k < 0.45:
+                loc = rloc(rng, n, strands=(1, -1), mult=3, minlen=3)
+                os_.append(("EnforceTranslation", kw(location=loc, boost=boost)))
+            elif k < 0.75:
+                loc = rloc(rng, n, minlen=2)
+                w = "".join(rng.choice("ACGTNWSRY") for _ in range(loc[1] - loc[0]))
+                os_.append(("EnforceSequence", kw(location=loc, sequence=w, boost=boost)))
+            else:
+                loc = rloc(rng, n, strands=(1, -1), mult=3, minlen=3)
+                os_.append(("AvoidStopCodons", kw(location=loc, boost=boost)))
         elif allow_custom:
             os_.append(("CountLetter", kw(letter=rng.choice("ACGT"), boost=boost, location=rng.choice([None, rloc(rng, n, strands=(0,), minlen=6)]))))
     out = []
